@@ -72,6 +72,8 @@ CORPUS = [
     # elemwise below gives MORE blocks and the single PartialReduce(split_every=2) silently drops the rest
     ("F33d", ("reduce", "argmin", ("slice", ("elem", "maximum", ("src", 0), ("src", 1)), (S(1, None, None),)), None, False, 2),
      [(np.array([3, 1, 4, 1, 5, 9, 2], dtype="int64"), ((1, 6),)), (np.array([-2, 7, -1, 8, -2, -8, 10], dtype="int64"), ((2, 1, 4),))]),
+    # F37: reshape_blockwise of an all-ones shape keeps its rank
+    ("F37", ("call", "reshape_blockwise_merge", (), (("src", 0),)), [(np.array([[[-3]]], dtype="int64"), ((1,), (1,), (1,)))]),
     # F35: pad wider than the axis (wrap / symmetric) is cut short
     ("F35", ("call", "pad", (2, "wrap"), (("src", 0),)), [(np.array([[5]], dtype="int64"), ((1,), (1,)))]),
     # F21: diff over repeat over a concatenate raises NotImplementedError
